@@ -7,7 +7,7 @@ from . import seqs, maps
 
 ID = "C05"
 LEVEL = "exploration"
-BUDGET = {"quick": 1200, "thorough": 80000}
+BUDGET = {"quick": 1200, "thorough": 240000}
 RULE = ("case = 1-4 containers (Array, List, Table, Tree with Probe elements/keys/values - a type with constructor, "
         "assignment, destructor and owned heap memory - and Array<Box> owning collector-managed Probes) driven by "
         "interleaved op lists incl. copy, assign between containers of the same family (Array<->List, Table<->Tree), "
